@@ -333,6 +333,20 @@ theorem rs_decode_encode_corrupted (F : GF) (h : FieldOK F) (hb : F.base ≤ 1) 
   have := List.length_pos_iff.2 hk
   simp at h2; omega
 
+/-- number of positions in which two words of equal length differ -/
+def hamming (a b : List Nat) : Nat := weight (List.zipWith (· ^^^ ·) a b)
+
+/-- received-word form: any word `v` that differs from the code word `c` in at most `⌊r/2⌋` positions
+    decodes to `c` -/
+theorem rs_corrects_received (F : GF) (h : FieldOK F) (hb : F.base ≤ 1) (c v : List Nat) (r : Nat)
+    (hlen : v.length = c.length) (hn : c.length ≤ F.size - 1) (hc : InField F c) (hv : InField F v)
+    (hz : ZeroSyndromes F c r) (hne : c ≠ []) (hrb : r + F.base ≤ F.size) (hd : 2 * hamming c v ≤ r) :
+    decode F v r = .ok c := by
+  have := rs_corrects F h hb c (List.zipWith (· ^^^ ·) c v) r (by simp [hlen]) hn hc
+    (InR_zipWith_xor h.2 c v hc hv) hz hne hrb hd
+  rw [zipWith_xor_cancel c v hlen] at this
+  exact this
+
 /-! non-vacuity of `rs_corrects`: a GF(16) code word with r = 4 and an error word of weight 2 -/
 example : 2 * weight [0, 1, 0, 0, 0, 0, 15] ≤ 4 ∧ ZeroSyndromes aztecParam [5, 10, 3, 9, 6, 2, 14] 4 := by
   unfold ZeroSyndromes; decide +kernel
